@@ -39,11 +39,12 @@ CONSTANTS BufSize,     \* SchedulerImpl.barrierBufferSize
           InOrderMem,  \* TRUE: memory answers in request order per port (what the reorder buffer guarantees)
           MaxLen,      \* model checking only: instructions per wavefront before s_endpgm is forced
           Waits,       \* model checking only: set of <<v, s>> pairs s_waitcnt may carry
-          Groups       \* model checking only: function work-group -> set of wavefront ids
+          Groups,      \* model checking only: function work-group -> set of wavefront ids
+          SampledGroups \* model checking only: groups the environment may also map in sampling mode
 
 VARIABLES
   wgOf,      \* wavefront -> work-group; the domain is the set of wavefronts mapped so far
-  st,        \* wavefront -> "Ready" | "Running" | "AtBarrier" | "Done"          (wavefront.Wavefront.State)
+  st,        \* wavefront -> "Ready" | "Running" | "AtBarrier" | "Done" | "Sampled"   (wavefront.Wavefront.State)
   cur,       \* wavefront -> instruction last issued [k, v, s]
   n,         \* wavefront -> number of instructions issued
   outV,      \* wavefront -> OutstandingVectorMemAccess
@@ -86,6 +87,19 @@ MapWG(g, ws) ==
   /\ g \notin DOMAIN sent /\ ws # {} /\ ws \cap Wfs = {}
   /\ wgOf' = wgOf @@ [w \in ws |-> g]
   /\ st' = st @@ [w \in ws |-> "Ready"]
+  /\ cur' = cur @@ [w \in ws |-> NoInst]
+  /\ n' = n @@ [w \in ws |-> 0]
+  /\ outV' = outV @@ [w \in ws |-> 0] /\ outS' = outS @@ [w \in ws |-> 0]
+  /\ reached' = reached @@ [w \in ws |-> 0] /\ passed' = passed @@ [w \in ws |-> 0]
+  /\ sent' = sent @@ (g :> 0)
+  /\ UNCHANGED <<internal, bbuf, vq, sq, aceOut, bad>>
+
+\* handleMapWGReq with wavefront sampling switched on and a stable prediction: the wavefronts are not
+\* simulated, a WfCompletionEvent per wavefront is scheduled at the predicted time.
+MapWGSampled(g, ws) ==
+  /\ g \notin DOMAIN sent /\ ws # {} /\ ws \cap Wfs = {}
+  /\ wgOf' = wgOf @@ [w \in ws |-> g]
+  /\ st' = st @@ [w \in ws |-> "Sampled"]
   /\ cur' = cur @@ [w \in ws |-> NoInst]
   /\ n' = n @@ [w \in ws |-> 0]
   /\ outV' = outV @@ [w \in ws |-> 0] /\ outS' = outS @@ [w \in ws |-> 0]
@@ -191,6 +205,17 @@ EvalEndpgm(w) ==
   /\ bad' = IF TruthS(w) > 0 THEN bad \cup {"EndAfterMemory"} ELSE bad
   /\ UNCHANGED <<wgOf, cur, n, outV, outS, vq, sq, reached>>
 
+\* ComputeUnit.handleWfCompletionEvent: a sampled wavefront ends at its predicted time; the last one of the
+\* group reports the completion (the event is re-scheduled until the message fits in the port).
+SampledEnd(w) ==
+  /\ w \in Wfs /\ st[w] = "Sampled"
+  /\ IF \A x \in Others(w) : st[x] = "Done"
+     THEN /\ aceOut < AceCap /\ aceOut' = aceOut + 1
+          /\ sent' = [sent EXCEPT ![wgOf[w]] = @ + 1]
+     ELSE UNCHANGED <<sent, aceOut>>
+  /\ st' = [st EXCEPT ![w] = "Done"]
+  /\ UNCHANGED <<wgOf, cur, n, outV, outS, internal, bbuf, vq, sq, reached, passed, bad>>
+
 \* ----------------------------------------------------------------- MC next
 MCInsts == {Inst("alu", 0, 0), Inst("vmem", 0, 0), Inst("smem", 0, 0), Inst("bar", 0, 0), Inst("end", 0, 0)}
            \cup {Inst("wait", p[1], p[2]) : p \in Waits}
@@ -198,10 +223,12 @@ MCInsts == {Inst("alu", 0, 0), Inst("vmem", 0, 0), Inst("smem", 0, 0), Inst("bar
 IssueAny(w) == w \in Wfs /\ \E i \in MCInsts : (n[w] >= MaxLen => i.k = "end") /\ Issue(w, i)
 
 CompStep(w) == IssueAny(w) \/ UnitDone(w) \/ MemExec(w, 0) \/ EvalWaitcnt(w) \/ EvalBarrier(w) \/ EvalEndpgm(w)
+               \/ SampledEnd(w)
 CompNext == \E w \in Wfs : CompStep(w)
 
 EnvNext ==
   \/ \E g \in DOMAIN Groups : MapWG(g, Groups[g])
+  \/ \E g \in DOMAIN Groups \cap SampledGroups : MapWGSampled(g, Groups[g])
   \/ \E j \in 1..Len(vq) : MemReturnV(j)
   \/ \E j \in 1..Len(sq) : MemReturnS(j)
   \/ EnvTakeACE
@@ -213,12 +240,13 @@ FairSpec == Spec
             /\ \A w \in UNION {Groups[g] : g \in DOMAIN Groups} :
                  /\ WF_vars(UnitDone(w)) /\ WF_vars(MemExec(w, 0)) /\ WF_vars(EvalWaitcnt(w))
                  /\ WF_vars(EvalBarrier(w)) /\ WF_vars(EvalEndpgm(w)) /\ WF_vars(IssueAny(w))
+                 /\ WF_vars(SampledEnd(w))
             /\ WF_vars(\E j \in 1..Len(vq) : MemReturnV(j)) /\ WF_vars(\E j \in 1..Len(sq) : MemReturnS(j))
             /\ WF_vars(EnvTakeACE)
-            /\ \A g \in DOMAIN Groups : WF_vars(MapWG(g, Groups[g]))
+            /\ \A g \in DOMAIN Groups : WF_vars(MapWG(g, Groups[g]) \/ MapWGSampled(g, Groups[g]))
 
 \* -------------------------------------------------------------- properties
-States == {"Ready", "Running", "AtBarrier", "Done"}
+States == {"Ready", "Running", "AtBarrier", "Done", "Sampled"}
 TypeOK ==
   /\ \A w \in Wfs : /\ st[w] \in States /\ outV[w] >= 0 /\ outS[w] >= 0
                     /\ passed[w] <= reached[w]
